@@ -101,7 +101,11 @@ func Extract(c pdf.Cursor, obj pdf.Object, _ bool) (*File, error) {
 	var dict pdf.Dict
 	switch obj := resolved.(type) {
 	case pdf.Name:
-		return Predefined(string(obj))
+		f, err := Predefined(string(obj))
+		if err != nil {
+			return nil, &pdf.MalformedFileError{Err: err}
+		}
+		return f, nil
 
 	case *pdf.Stream:
 		dict = obj.Dict
@@ -124,18 +128,34 @@ func Extract(c pdf.Cursor, obj pdf.Object, _ bool) (*File, error) {
 
 	res, parentName, err := readCMap(body)
 	if err != nil {
+		if !pdf.IsMalformed(err) {
+			err = &pdf.MalformedFileError{Err: err}
+		}
 		return nil, err
 	}
 
-	if name, _ := c.Name(dict["CMapName"]); name != "" {
+	// the optional entries: malformed values are ignored, read errors are not
+	name, err := c.Name(dict["CMapName"])
+	if pdf.IsReadError(err) {
+		return nil, err
+	}
+	if name != "" {
 		if clean := sanitizeName(string(name)); clean != "" {
 			res.Name = clean
 		}
 	}
-	if ros, _ := pdf.Decode(c, dict["CIDSystemInfo"], font.ExtractCIDSystemInfo); ros != nil {
+	ros, err := pdf.Decode(c, dict["CIDSystemInfo"], font.ExtractCIDSystemInfo)
+	if pdf.IsReadError(err) {
+		return nil, err
+	}
+	if ros != nil {
 		res.ROS = ros
 	}
-	if wMode, _ := c.Integer(dict["WMode"]); wMode == 1 {
+	wMode, err := c.Integer(dict["WMode"])
+	if pdf.IsReadError(err) {
+		return nil, err
+	}
+	if wMode == 1 {
 		res.WMode = font.Vertical
 	}
 
